@@ -166,7 +166,7 @@ UNIT = {
   'Dictionary::deep_clone': inherent(P, r'^impl DeepClone for Dictionary$', 'dict_clone(*self, c, final(cloner).memo())',
       decreases='*self, 0nat', attrs=['#[verifier::loop_isolation(false)]'],
       # R6: IndexMap iteration -> index loop over the entries in iteration order, the new map receives them in that order
-      extra=[{'rule': 'R6', 'regex': r'self\.dict\.iter\(\)\s*\.map\(\|\(key, value\)\| Ok\(\((?P<k>key\.clone\(\)), (?P<v>value\.deep_clone\(cloner\)\?)\)\)\)\s*\.try_collect::<_, _, PdfError>\(\)\?',
+      extra=[{'rule': 'R6', 'regex': r'self\.dict\.iter\(\)\s*\.map\(\|\(key, value\)\| Ok\(\((?P<k>[^,]*), (?P<v>.*?)\)\)\)\s*\.try_collect::<_, _, PdfError>\(\)\?',
               'replace': r'{ let mut out_: IndexMap<Name, Primitive> = IndexMap::new(); let mut i_: usize = 0; '
                          r'while i_ < self.dict.entries.len() { let key = &self.dict.entries[i_].0; let value = &self.dict.entries[i_].1; '
                          r'let ghost m0_ = cloner.memo(); let ghost o0_ = out_.entries@; let k_ = \g<k>; let v_ = \g<v>; out_.entries.push((k_, v_)); i_ = i_ + 1; '
@@ -201,6 +201,8 @@ RB = [
     {'where': 'sig', 'rule': 'R2', 'regex': r'\Afn clone_plainref', 'replace': 'pub fn clone_plainref', 'count': '*'},
     # R5: reference pattern -> deref let
     {'rule': 'R5', 'regex': r'if let Some\(&new_ref\) = (.*?) \{', 'replace': r'if let Some(new_ref_) = \1 { let new_ref = *new_ref_;', 'count': '*'},
+    # R1: the ghost accessors spelled out once (definitional tautologies: e-matching needs the terms)
+    {'rule': 'R1', 'regex': r'\A\s*\{', 'replace': '{ proof { assert(self.memo() == self.map@); assert(self.newdoc() == self.updater.handed()); assert(self.promised() == self.updater.promised_()); }'},
     # R7: Arc::clone
     {'rule': 'R7', 'regex': r'new\.data\(\)\.clone\(\)', 'replace': 'hoist_shared_clone(new.data())', 'count': '*'},
 ]
@@ -280,3 +282,88 @@ WORLD_B = {
       'rewrites': [{'where': 'sig', 'rule': 'R2', 'regex': r'\Afn ', 'replace': 'pub fn '}]},
 }
 UNIT['items'].update(WORLD_B)
+
+# ---------------------------------------------------------------------------------------------------------------------
+# World C: derived DeepClone (macro expansion).  R1 only: the memo after each field is remembered in a ghost variable and
+# the monotonicity lemma of every field is called at the end (field texts stay verbatim, by back-reference).
+OBJ_TYPES = [r'^pub mod object$', r'^mod types$']
+OBJ_STREAM = [r'^pub mod object$', r'^mod stream$']
+
+
+def derived_struct(ty, fields, container, rel):
+    decl = ' '.join('let ghost mut m_%s: Memo = cloner.memo();' % f for f in fields)
+    lemmas = ' '.join('self.%s.lemma_mono(&r_.%s, m_%s, cloner.memo());' % (f, f, f) for f in fields)
+    return inherent(X, container, rel, extra=[
+        {'rule': 'R1', 'regex': r'\A\s*\{', 'replace': '{ ' + decl},
+        {'rule': 'R1', 'regex': r'(\w+): (self\.\w+\.deep_clone\(cloner\)\?),', 'replace': r'\1: { let v_ = \2; proof { m_\1 = cloner.memo(); } v_ },', 'count': '*'},
+        {'rule': 'R1', 'regex': r'Ok\(%s \{(.*)\}\)\s*\}\s*\Z' % ty, 'replace': r'let r_ = %s {\1}; proof { %s } Ok(r_) }' % (ty, lemmas)},
+    ])
+
+
+RES_FIELDS = ['graphics_states', 'color_spaces', 'pattern', 'xobjects', 'fonts', 'properties']
+WORLD_C = {
+  'struct StreamInfo': {'kind': 'decl', 'file': S, 'header': r'^pub struct StreamInfo<I>$'},
+  'enum StreamData': {'kind': 'decl', 'file': S, 'header': r'^pub \(crate\) enum StreamData$',
+      'rewrites': [{'rule': 'R2', 'find': 'pub (crate) enum', 'replace': 'pub enum'}]},
+  'struct Stream': {'kind': 'decl', 'file': S, 'header': r'^pub struct Stream<I>$',
+      'rewrites': [{'rule': 'R2', 'find': 'pub (crate) inner_data:', 'replace': 'pub inner_data:'}]},
+  'struct Resources': {'kind': 'decl', 'file': T, 'header': r'^pub struct Resources$'},
+  'enum XObject': {'kind': 'decl', 'file': T, 'header': r'^pub enum XObject$'},
+  'struct AppearanceStreams': {'kind': 'decl', 'file': T, 'header': r'^pub struct AppearanceStreams$'},
+  'StreamInfo::deep_clone': derived_struct('StreamInfo', ['filters', 'file', 'file_filters', 'info'],
+      OBJ_STREAM + [r'^impl<I: pdf::object::DeepClone> pdf::object::DeepClone for\s+StreamInfo<I>$'],
+      'streaminfo_clone(*self, c, final(cloner).memo())'),
+  'Stream::deep_clone': inherent(S, r'^impl<I: DeepClone> DeepClone for Stream<I>$', 'typed_stream_clone(*self, c, final(cloner).memo())',
+      extra=[{'rule': 'R7', 'find': 'range.clone()', 'replace': 'hoist_range_clone(range)'},
+             {'rule': 'R7', 'find': 'data.clone()', 'replace': 'hoist_arc_clone(data)'}]),
+  'XObject::deep_clone': inherent(X, OBJ_TYPES + [r'^impl pdf::object::DeepClone for XObject$'], 'xobject_clone(*self, c, final(cloner).memo())'),
+  'Resources::deep_clone': derived_struct('Resources', RES_FIELDS, OBJ_TYPES + [r'^impl pdf::object::DeepClone for Resources$'],
+      'resources_clone(*self, c, final(cloner).memo())'),
+  'AppearanceStreams::deep_clone': derived_struct('AppearanceStreams', ['normal', 'rollover', 'down'],
+      OBJ_TYPES + [r'^impl pdf::object::DeepClone for AppearanceStreams$'], 'appearance_clone(*self, c, final(cloner).memo())'),
+}
+UNIT['items'].update(WORLD_C)
+
+# ---------------------------------------------------------------------------------------------------------------------
+# World D: resource pruning
+PRUNE_REQ = [WF_A, 'pruned_of(*old_resources, *old(resources), old(cloner).memo())']
+KEPT = [('collected_resources_kept', 'resources_kept(*old(resources), *final(resources))'),
+        ('pruned_invariant', 'r is Ok ==> pruned_of(*old_resources, *final(resources), final(cloner).memo())')]
+# R1: after an entry went in, the entries collected before are clones under the grown memo too
+AFTER_INSERT = {'rule': 'R1', 'regex': r'(resources\.\w+\.insert\((?:name\.clone\(\)|name), \w+\.deep_clone\(cloner\)\?\);)',
+                'replace': r'\1 proof { lemma_pruned_mono(*old_resources, *old(resources), old(cloner).memo(), cloner.memo()); }', 'count': '*'}
+
+
+def helper(name, used):
+    return {'kind': 'fn', 'file': CT, 'container': None, 'name': name, 'props': PR, 'optional': True,
+            'requires': PRUNE_REQ,
+            'ensures': [('cloner_wf', 'wf(*final(cloner))'), ('memo_grows', 'grows(*old(cloner), *final(cloner))'),
+                        ('named_resource_kept', 'r is Ok ==> ' + used)] + KEPT,
+            'rewrites': [CLONER_SIG, AFTER_INSERT,
+                         {'rule': 'R7', 'find': 'args.last()', 'replace': 'hoist_last(args)', 'count': '*'}]}
+
+
+ENTRY = 'entry_kept(%s, %s, *old_resources, *final(resources), final(cloner).memo())'
+WORLD_D = {
+  'enum Color': {'kind': 'decl', 'file': CT, 'header': r'^pub enum Color$'},
+  'enum Op': {'kind': 'decl', 'file': CT, 'header': r'^pub enum Op$'},
+  'clone_named_color_space': helper('clone_named_color_space', ENTRY % ('Cat::ColorSpace', '*name')),
+  'clone_named_pattern': helper('clone_named_pattern', '(color_pattern_name(*color) matches Some(n) ==> %s)' % (ENTRY % ('Cat::Pattern', 'n'))),
+  'clone_named_properties': helper('clone_named_properties', '(props_name(*properties) matches Some(n) ==> %s)' % (ENTRY % ('Cat::Properties', 'n'))),
+  'deep_clone_op': {'kind': 'fn', 'file': CT, 'container': None, 'name': 'deep_clone_op', 'props': PR,
+      'requires': PRUNE_REQ,
+      'ensures': [('cloner_wf', 'wf(*final(cloner))'), ('memo_grows', 'grows(*old(cloner), *final(cloner))'),
+                  ('op_kept', 'r matches Ok(c) ==> op_clone(*op, c, final(cloner).memo())'),
+                  ('named_resource_kept', 'r is Ok ==> (uses(*op) matches Some(u) ==> %s)' % (ENTRY % ('u.0', 'u.1')))] + KEPT,
+      'rewrites': [CLONER_SIG, AFTER_INSERT,
+          # R1: the inline property list is cloned last: the collected entries are clones under the grown memo too
+          {'rule': 'R1', 'regex': r'properties: (properties\.deep_clone\(cloner\)\?) \}\)', 'count': '*',
+           'replace': r'properties: { let ghost r1_ = *resources; let ghost m1_ = cloner.memo(); let p_ = \1; '
+                      r'proof { lemma_pruned_mono(*old_resources, r1_, m1_, cloner.memo()); } p_ } })'}]},
+}
+UNIT['items'].update(WORLD_D)
+UNIT['deviations'] = {
+  'DEV_SHADING_RESOURCES_NOT_MODELLED': 'the operator `sh` names a /Shading resource, but `Resources` has no /Shading entry '
+      '(object/types.rs:382: the field is commented out): the shading a page paints with is lost already on load, and so on '
+      'import (findings/pruning_drops_named_resources.md)',
+}
